@@ -90,6 +90,9 @@ type SimReaderAt struct {
 	// OnRead, when set, is invoked with the call index before each read is
 	// served (cancellation triggers; single-task runs only)
 	OnRead func(idx int)
+	// FaultFn, when set, decides per call whether it fails (single-task runs
+	// only; used when several readers share one global fault plan)
+	FaultFn func(idx int) (fail bool, kind int)
 }
 
 func NewSimReaderAt(img []byte, sched *Sched) *SimReaderAt {
@@ -127,6 +130,12 @@ func (r *SimReaderAt) ReadAt(p []byte, off int64) (int, error) {
 	idx, fail, kind := r.tick()
 	if r.OnRead != nil {
 		r.OnRead(idx)
+	}
+	if r.FaultFn != nil {
+		if ff, k := r.FaultFn(idx); ff {
+			fail, kind = true, k
+			r.Fired++
+		}
 	}
 	r.sched.Yield(evRead, uint64(off)<<20^uint64(len(p)))
 	if fail {
